@@ -94,3 +94,19 @@ func FuzzDecodeDir(f *testing.F) {
 		}
 	})
 }
+
+// TestC04_CountSweep: every 16-bit element count x short tails, for Twalk and Rwalk.
+func TestC04_CountSweep(t *testing.T) {
+	tails := []int{0, 1, 3}
+	if harn.Thorough() {
+		tails = []int{0, 1, 2, 3, 5, 8, 13, 26}
+	}
+	n, bad, err := SweepCounts(tails)
+	harn.Count("count_sweep_inputs", n)
+	if err != nil && bad != nil {
+		harn.RunOne(t, "C04_Untrusted", UntrustedCase{Raw: orNul(bad)}, RunUntrusted) // fails with a replayable case
+	}
+	if err != nil {
+		t.Fatalf("HARNESS-ERROR count sweep: %v", err)
+	}
+}
